@@ -86,6 +86,38 @@ func e2eFlowYAML(s spec) string {
 	if len(s.Methods) > 0 {
 		fmt.Fprintf(&b, "  method: [%s]\n", strings.Join(s.Methods, ", "))
 	}
+	if s.Body {
+		b.WriteString(`processors:
+  P:
+    processor: DataSanitation
+flow:
+  request:
+    - from:
+        stream:
+          name: globalStream
+          at: start
+      to:
+        processor:
+          name: P
+    - from:
+        processor:
+          name: P
+      to:
+        stream:
+          name: globalStream
+          at: end
+  response:
+    - from:
+        stream:
+          name: globalStream
+          at: start
+      to:
+        stream:
+          name: globalStream
+          at: end
+`)
+		return b.String()
+	}
 	b.WriteString(`processors:
   P:
     processor: Filter
